@@ -167,7 +167,7 @@ def flavor_job(args):
 
 
 def grid_job(args):
-    seed, side = args
+    seed, side, few = args
     from eko.interpolation import XGrid
     from eko.io import manipulate
     from eko.io.items import Operator
@@ -178,7 +178,7 @@ def grid_job(args):
     n = rng.choice([3, 4]) if h == F(1, 8) else 3
     m0 = rng.randint(1, int(1 / h) - (n - 1))
     gold = [(m0 + i) * h for i in range(n)]
-    deg = rng.randint(1, 2)
+    deg = 2 if few else rng.randint(1, 2)
     sc = 8
     M0 = nrng.integers(-2, 3, size=(NF, NF, n))
     M1 = nrng.integers(-2, 3, size=(NF, NF, n))
@@ -189,7 +189,8 @@ def grid_job(args):
         # dyadic points inside the old grid (at least two, XGrid needs it)
         cand = [gold[0] + F(k, 2) * h for k in range(2 * (n - 1) + 1)]
         while True:
-            tnew = sorted(rng.sample(cand, rng.randint(2, min(4, len(cand)))))
+            # few: fewer target points than the degree needs nodes (the basis lives on the OLD grid)
+            tnew = sorted(rng.sample(cand, 2 if few else rng.randint(2, min(4, len(cand)))))
             if tnew != gold:
                 break
     if side in ("input", "both"):
@@ -278,17 +279,23 @@ def _law_job(cell, sample, seed):
         k = rng.randint(max(deg + 1, 4), 25)
         return drv.random_grid(rng, k, math.log10(gold[0]), math.log10(gold[0]), mode)
 
-    tnew = newgrid() if side in ("target", "both") else np.array(gold)
+    def few_targets():
+        # fewer target points than the degree needs nodes: the basis lives on the OLD grid, so the
+        # re-interpolation must still be of the full degree
+        k = rng.randint(2, deg + 1)
+        return drv.random_grid(rng, k, math.log10(gold[0]), math.log10(gold[0]), mode)
+
+    tnew = (few_targets() if variant != "tinyx" and rng.random() < 0.4 else newgrid()) if side in ("target", "both") else np.array(gold)
     inew = newgrid() if side in ("input", "both") else np.array(gold)
     if variant == "tinyx" and side in ("input", "both"):
         # the new input grid must still contain the old points in its hull
         inew[0] = gold[0] / (1.0 + rng.uniform(0.2, 1.0))
     ms_old = drv.Measured(gold, deg, mode)
     nfl = 2
-    M0 = nrng.integers(-2, 3, size=(nfl, nfl, n)).astype(float)
-    M1 = nrng.integers(-2, 3, size=(nfl, nfl, n)).astype(float)
-    q1_old = ms_old.q(1, ms_old.u)
-    O = M0[:, None, :, :] + M1[:, None, :, :] * q1_old[None, :, None, None]
+    # the operator depends on the OUTPUT point through a polynomial of the full degree (a target-side
+    # re-interpolation of lower degree does not reproduce it)
+    Ms = [nrng.integers(-2, 3, size=(nfl, nfl, n)).astype(float) for _ in range(deg + 1)]
+    O = sum(Ms[m][:, None, :, :] * ms_old.q(m, ms_old.u)[None, :, None, None] for m in range(deg + 1))
     p = nrng.integers(-2, 3, size=(nfl, deg + 1)).astype(float)
 
     def poly(xs):
@@ -307,10 +314,10 @@ def _law_job(cell, sample, seed):
         resid, bound = float("inf"), 0.0
     else:
         lhs = np.einsum("ajbk,bk->aj", On, f_new)
-        q1_t = np.array([ms_old.q(1, ms_old.var(float(x))) for x in tnew])
-        Oexp = M0[:, None, :, :] + M1[:, None, :, :] * q1_t[None, :, None, None]
+        u_t = np.array([ms_old.var(float(x)) for x in tnew])
+        Oexp = sum(Ms[m][:, None, :, :] * ms_old.q(m, u_t)[None, :, None, None] for m in range(deg + 1))
         rhs = np.einsum("ajbk,bk->aj", Oexp, f_old)
-        scale = max(1.0, float(np.sum(np.abs(M0) + np.abs(M1))) * float(np.max(np.abs(f_old))))
+        scale = max(1.0, float(sum(np.sum(np.abs(M)) for M in Ms)) * float(np.max(np.abs(f_old))))
         resid = float(np.max(np.abs(lhs - rhs))) / scale
         bt = bi = 0.0
         if side in ("target", "both"):
@@ -346,7 +353,8 @@ def run(chk):
             fjobs.append((rng.randrange(2**32), "flavor_reshape", sides))
             fjobs.append((rng.randrange(2**32), "to_evol", sides))
             fjobs.append((rng.randrange(2**32), "to_uni_evol", sides))
-    gjobs = [(rng.randrange(2**32), side) for side in ("target", "input", "both") for _ in range(8 if chk.thorough() else 3)]
+    gjobs = [(rng.randrange(2**32), side, False) for side in ("target", "input", "both") for _ in range(8 if chk.thorough() else 3)]
+    gjobs += [(rng.randrange(2**32), side, True) for side in ("target", "both") for _ in range(3 if chk.thorough() else 1)]
 
     with ctx.Pool(12) as pool:
         la = pool.map_async(law_job, ljobs, chunksize=2)
